@@ -449,6 +449,16 @@ theorem mac_bytes (b : List UInt8) (h : 20 ≤ b.length) :
   rw [macAt_eq, macF, List.map_map, ← bytes_take b 6 14 (by omega)]
   rfl
 
+theorem encode_unfold (p : Packet) (board : String × List Nat) (h : p.boardId = some board) :
+    encode p = [1, 3] ++ beBytes p.acceptedTrigger 2 ++ [UInt8.ofNat p.moduleId]
+      ++ [UInt8.ofNat (channelByte p.channelId)] ++ beBytes p.requestedSamples 2
+      ++ beBytes (p.eventTimestamp % 4294967296) 4
+      ++ (beBytes 0 2 ++ board.2.map UInt8.ofNat ++ beBytes (p.eventTimestamp / 4294967296) 4
+        ++ beBytes (ofSigned 32 (p.triggerOffset.getD 0)) 4 ++ beBytes (p.buildTimestamp.getD 0) 4
+        ++ encodeSamples p.waveform ++ encodeFooter p) := by
+  unfold encode
+  rw [h]
+
 theorem encode_long (b : List UInt8) (h36 : 36 ≤ b.length) (heven : (b.length - 36) % 2 = 0)
     (t1 : byteAt b 0 = 1) (v3 : byteAt b 1 = 3) (hch : byteAt b 5 ≤ 15 ∨ 128 ≤ byteAt b 5)
     (z : beAt b 12 2 = 0) (hmac : macF b ∈ knownMacs) :
@@ -484,10 +494,17 @@ theorem encode_long (b : List UInt8) (h36 : 36 ≤ b.length) (heven : (b.length 
         take_append_piece b 28 4 32 rfl,
         take_append_piece b 32 (b.length - 36) (b.length - 4) (by omega)]
     unfold clearFooterBits
-    rw [List.append_assoc, ← hf, hA]
-    unfold encode
-    simp only [longPacket, hfb, hts, hts2, channelByte_chan b hch, Option.getD_some, hb2,
-      mac_bytes b (by omega), ofSigned_toSigned32 _ (beAt_lt b 24 4)]
+    rw [List.append_assoc, ← hf, hA, encode_unfold (longPacket b) board hfb]
+    have p1 : (longPacket b).acceptedTrigger = beAt b 2 2 := rfl
+    have p2 : (longPacket b).moduleId = byteAt b 4 := rfl
+    have p3 : (longPacket b).channelId = chan b := rfl
+    have p4 : (longPacket b).requestedSamples = beAt b 6 2 := rfl
+    have p5 : (longPacket b).eventTimestamp = beAt b 20 4 * 4294967296 + beAt b 8 4 := rfl
+    have p6 : (longPacket b).triggerOffset = some (toSigned 32 (beAt b 24 4)) := rfl
+    have p7 : (longPacket b).buildTimestamp = some (beAt b 28 4) := rfl
+    have p8 : (longPacket b).waveform = wave b := rfl
+    rw [p1, p2, p3, p4, p5, p6, p7, p8, hts, hts2, channelByte_chan b hch, Option.getD_some,
+      Option.getD_some, hb2, mac_bytes b (by omega), ofSigned_toSigned32 _ (beAt_lt b 24 4)]
     rw [← byte_take b 0 (by omega), ← byte_take b 1 (by omega), ← byte_take b 4 (by omega),
       ← byte_take b 5 (by omega), ← beBytes_beAt b 2 2 (by omega),
       ← beBytes_beAt b 6 2 (by omega), ← beBytes_beAt b 8 4 (by omega),
@@ -495,5 +512,64 @@ theorem encode_long (b : List UInt8) (h36 : 36 ≤ b.length) (heven : (b.length 
       ← beBytes_beAt b 24 4 (by omega), ← beBytes_beAt b 28 4 (by omega), t1, v3, z]
     rw [hw]
     simp only [List.append_assoc, List.nil_append, List.cons_append, lit1, lit3]
+
+/-- C02 (round trip): re-encoding the accessor values of an accepted packet reproduces the
+input byte for byte, apart from the two unused footer bits 14 and 15. -/
+theorem adc_roundtrip (b : List UInt8) (p : Packet) (h : decode b = .ok p) :
+    encode p = clearFooterBits b := by
+  obtain ⟨wf, rfl⟩ := (decode_ok_iff b p).1 h
+  have hch : byteAt b 5 ≤ 15 ∨ 128 ≤ byteAt b 5 := by have := wf.channel; omega
+  rcases wf.form with sf | lf
+  · rw [← shortPacket_eq_fields b sf.len hch]
+    exact encode_short b sf.len wf.type1 wf.version3 hch
+  · rw [← longPacket_eq_fields b lf.len lf.even hch]
+    exact encode_long b lf.len lf.even wf.type1 wf.version3 hch
+      ((beAt12_zero b).2 ⟨lf.zero12, lf.zero13⟩) lf.mac
+
+/-- When the unused bits are clear the round trip is exact. -/
+theorem adc_roundtrip_exact (b : List UInt8) (p : Packet) (h : decode b = .ok p)
+    (hu : byteAt b (b.length - 4) < 64) : encode p = b := by
+  have h16 : 16 ≤ b.length := ((decode_ok_iff b p).1 h).1.minLen
+  rw [adc_roundtrip b p h, clearFooterBits, Nat.mod_eq_of_lt hu,
+    byte_take b (b.length - 4) (by omega), take_append_piece b (b.length - 4) 1 (b.length - 3)
+      (by omega), List.take_append_drop]
+
+/-- Two byte strings that decode to the same packet differ at most in the two unused bits:
+decoding loses no other information. -/
+theorem adc_decode_injective (b c : List UInt8) (p : Packet) (hb : decode b = .ok p)
+    (hc : decode c = .ok p) : clearFooterBits b = clearFooterBits c := by
+  rw [← adc_roundtrip b p hb, ← adc_roundtrip c p hc]
+
+/-! ### Non-vacuity -/
+
+/-- The 16-byte packet of the crate's documentation examples (footer `0xE000`: suppression on,
+both unused bits set). -/
+def exampleShort : List UInt8 := [1, 3, 0, 4, 5, 6, 2, 187, 0, 0, 0, 7, 224, 0, 0, 0]
+
+/-- 64 samples (ten of them -3, so the sum is negative and the floor is -1), suppression off. -/
+def exampleLong : List UInt8 :=
+  [1, 3, 0, 4, 5, 6, 0, 66, 0, 0, 0, 7, 0, 0, 216, 128, 57, 104, 55, 76, 0, 0, 0, 1, 255, 255, 255, 254, 0, 0, 0, 9, 255, 253, 255, 253, 255, 253, 255, 253, 255, 253, 255, 253, 255, 253, 255, 253, 255, 253, 255, 253, 0, 0, 0, 0, 0, 0, 0, 0, 0, 0, 0, 0, 0, 0, 0, 0, 0, 0, 0, 0, 0, 0, 0, 0, 0, 0, 0, 0, 0, 0, 0, 0, 0, 0, 0, 0, 0, 0, 0, 0, 0, 0, 0, 0, 0, 0, 0, 0, 0, 0, 0, 0, 0, 0, 0, 0, 0, 0, 0, 0, 0, 0, 0, 0, 0, 0, 0, 0, 0, 0, 0, 0, 0, 0, 0, 0, 0, 0, 0, 0, 0, 0, 0, 0, 0, 0, 0, 0, 0, 0, 0, 0, 0, 0, 0, 0, 0, 0, 0, 0, 0, 0, 0, 0, 0, 0, 0, 0, 0, 0, 255, 255]
+
+/-- 66 samples at the `i16` extremes, suppression on, keep bit set, `keep_last` 34 (index 64),
+both unused footer bits set, requested 70. -/
+def exampleLongSupp : List UInt8 :=
+  [1, 3, 0, 4, 5, 133, 0, 70, 0, 0, 0, 7, 0, 0, 216, 128, 57, 104, 55, 76, 0, 0, 0, 1, 255, 255, 255, 254, 0, 0, 0, 9, 127, 255, 128, 0, 127, 255, 128, 0, 127, 255, 0, 100, 127, 255, 128, 0, 127, 255, 128, 0, 127, 255, 128, 0, 127, 255, 128, 0, 127, 255, 128, 0, 127, 255, 128, 0, 127, 255, 128, 0, 127, 255, 128, 0, 127, 255, 128, 0, 127, 255, 128, 0, 127, 255, 128, 0, 127, 255, 128, 0, 127, 255, 128, 0, 127, 255, 128, 0, 127, 255, 128, 0, 127, 255, 128, 0, 127, 255, 128, 0, 127, 255, 128, 0, 127, 255, 128, 0, 127, 255, 128, 0, 127, 255, 128, 0, 127, 255, 128, 0, 127, 255, 128, 0, 127, 255, 128, 0, 127, 255, 128, 0, 127, 255, 128, 0, 127, 255, 128, 0, 127, 255, 128, 0, 127, 255, 128, 0, 127, 255, 128, 0, 240, 34, 2, 1]
+
+example : (decode exampleShort).isOk = true := by decide
+example : (decode exampleLong).isOk = true := by decide +kernel
+example : decode exampleLongSupp = .ok (fields exampleLongSupp) := by decide +kernel
+example : AdcWellFormed exampleShort := (adc_accept_iff _).1 ⟨fields exampleShort, by decide +kernel⟩
+example : AdcWellFormed exampleLong := (adc_accept_iff _).1 ⟨fields exampleLong, by decide +kernel⟩
+example : (fields exampleLong).suppressionBaseline = -1 := by decide +kernel
+example : (fields exampleLongSupp).keepLast = 34 ∧ (fields exampleLongSupp).waveform.length = 66
+    ∧ (fields exampleLongSupp).suppressionBaseline = 513 := by decide +kernel
+example : encode (fields exampleLongSupp) = clearFooterBits exampleLongSupp := by decide +kernel
+example : encode (fields exampleLongSupp) ≠ exampleLongSupp := by decide +kernel
+/-- flipping one sample bit, one MAC bit or the requested count breaks acceptance -/
+example : decode (exampleLong.set 32 (0x7F : UInt8)) = .err .baselineMismatch := by decide +kernel
+example : decode (exampleLong.set 19 (0x4d : UInt8)) = .err .unknownMac := by decide +kernel
+example : decode (exampleLong.set 7 (67 : UInt8)) = .err .badNumberOfSamples := by decide +kernel
+example : decode (exampleLong.set 7 (1 : UInt8) |>.set 6 0) = .err .badNumberOfSamples := by
+  decide +kernel
 
 end AlphaG.Adc
